@@ -22,6 +22,10 @@ theorem make_nat (n : Nat) (k : Nat → Res) : Res.make (n : Int) k = k n := by
 theorem make_int {n : Int} (k : Nat → Res) (h : 0 ≤ n) : Res.make n k = k n.toNat := by
   unfold Res.make; simp [h]
 
+theorem sliceLen_ok (blen : Nat) (i j : Int) (k : Nat → Res) (h : 0 ≤ i ∧ i ≤ j ∧ j ≤ blen) :
+    Res.sliceLen blen i j k = k (j.toNat - i.toNat) := by
+  unfold Res.sliceLen; simp only [h, and_self, if_true]
+
 theorem slice_ok (b : Bytes) (i j : Int) (k : Bytes → Res) (h : 0 ≤ i ∧ i ≤ j ∧ j ≤ b.length) :
     Res.slice b i j k = k ((b.drop i.toNat).take (j.toNat - i.toNat)) := by
   unfold Res.slice; simp only [h, and_self, if_true]
@@ -148,19 +152,17 @@ theorem readFull_enc (crc : Bytes → Nat) (seq : Int) (p rest : Bytes)
   rw [make_int _ (by omega)]
   have he : ((↑(p.length + 12) : Int) - 4).toNat = p.length + 8 := by omega
   simp only [he, alloc_out]
+  rw [sliceLen_ok _ _ _ _ (by omega)]
+  have hil : (putU32 (ofInt32 seq) ++ p ++ putU32 c).length = p.length + 8 := by
+    simp [putU32_length]; omega
+  have hvl : (↑(p.length + 12) : Int).toNat - (4 : Int).toNat = p.length + 8 := by omega
+  rw [hvl, readN_append _ rest _ _ hil]
+  simp only [hil]
   -- the buffer after PutInt and Expand
   generalize hb0 : leN 4 (p.length + 12) ++ leN 4 (p.length + 12) ++ zeros (p.length + 8) = buf0
   have hb0l : buf0.length = p.length + 16 := by rw [← hb0]; simp only [List.length_append, leN_length, zeros_length]; omega
   have hb0t : buf0.take 4 = putU32 (p.length + 12) := by
     rw [← hb0, List.append_assoc]; exact take_append_len _ _ 4 (leN_length _ _)
-  rw [slice_ok _ _ _ _ (by rw [hb0l]; omega)]
-  have hil : (putU32 (ofInt32 seq) ++ p ++ putU32 c).length = p.length + 8 := by
-    simp [putU32_length]; omega
-  have hvl : (List.take ((↑(p.length + 12) : Int).toNat - (4 : Int).toNat)
-      (List.drop (4 : Int).toNat buf0)).length = p.length + 8 := by
-    simp only [List.length_take, List.length_drop, hb0l]; omega
-  rw [hvl, readN_append _ rest _ _ hil]
-  simp only [hil]
   have h1 : ¬ (p.length + 8 < 4) := by omega
   simp only [h1, if_false]
   have htake : (putU32 (ofInt32 seq) ++ p ++ putU32 c).take 4 = putU32 (ofInt32 seq) := by
